@@ -88,7 +88,11 @@ func LoadProgram(dir string, overlay map[string][]byte, patterns []string) (*Eng
 	}
 	e.registerIntrinsics()
 	e.summarise = map[string]bool{}
-	e.merging = true
+	_ = 0
+	e.merging = os.Getenv("GOSYM_NOMERGE") == ""
+	if os.Getenv("GOSYM_NOSUM") != "" {
+		defaultSummarised = nil
+	}
 	for _, n := range defaultSummarised {
 		e.summarise[n] = true
 	}
